@@ -120,9 +120,11 @@ type pk struct {
 	blob []byte
 }
 
-func (p pk) Type() string                         { return p.typ }
-func (p pk) Marshal() []byte                      { return p.blob }
-func (p pk) Verify([]byte, *ssh.Signature) error { return errors.New("harness key: Verify is not used") }
+func (p pk) Type() string    { return p.typ }
+func (p pk) Marshal() []byte { return p.blob }
+func (p pk) Verify([]byte, *ssh.Signature) error {
+	return errors.New("harness key: Verify is not used")
+}
 
 func (k *testKey) public() ssh.PublicKey { return pk{k.format, k.blob} }
 
@@ -331,7 +333,6 @@ func writeKeyFiles(dir string) error {
 
 // ---- independent signature verification (standard library only) ----
 
-
 // verifySig checks an SSH signature (format, blob) over data under the
 // standard-library public key pub. It returns nil iff the signature is valid
 // for exactly the algorithm named by format.
@@ -424,3 +425,5 @@ func ecParts(k *testKey) ecP {
 	p := k.priv.(*ecdsa.PrivateKey)
 	return ecP{elliptic.Marshal(p.Curve, p.X, p.Y), p.D}
 }
+
+func rsaPrimes(k *testKey) []*big.Int { return k.priv.(*rsa.PrivateKey).Primes }
